@@ -518,6 +518,7 @@ def run(F, rep, tier):
     seen, pred = G.reach(roots)
     rep.floor(r5, "evaluation-reachable bodies", len(seen), 800)
     nsink = 0
+    npred = [0]
     for n, h in sorted(sinks.items()):
         if n not in seen:
             continue
@@ -544,6 +545,19 @@ def run(F, rep, tier):
         out_ty = F.ty(f, f["output"]) if f else ""
         assigns_self = "Assign" in n
         if "FeelNumber" not in out_ty and "Self" not in out_ty and not assigns_self:
+            if "bool" in out_ty and "decQuadRemainder" in srcs:
+                # a predicate on a remainder (even / odd): decQuadRemainder answers 'division impossible' (NaN) when the integer quotient needs more than 34 digits, and a
+                # zero test on NaN is false.  The remainder is used under a finite test, or the operand is known to have exponent 0 (decQuadIsInteger: the quotient then fits)
+                allp = []
+                method_value(F, W, h, inline=False, tests=allp)
+                fin = any(q[1] == "decQuadIsFinite" and any(r[1] == "decQuadRemainder" for s in q[2] for r in prims_in(s)) for q in allp)
+                integ = any(q[1] == "decQuadIsInteger" and any(("self",) in s for s in q[2]) for q in allp)
+                npred[0] += 1
+                if fin or integ:
+                    rep.ok(r5, short(n), "the remainder is used %s" % ("under dec_is_finite" if fin else "for an operand tested by decQuadIsInteger (exponent 0: the quotient fits 34 digits)"))
+                else:
+                    rep.violation(r5, short(n), "%s tests the result of decQuadRemainder without a finite check: for an integer of more than 34 digits the remainder is not-a-number "
+                                  "('division impossible') and the predicate answers as if it were non-zero" % short(n), "%s:%s" % (h["file"], h["line"]))
             continue
         nsink += 1
         checked = any((c or "").endswith("dec::dec_is_finite") for c, _, _, _, _ in fl.calls)
@@ -571,6 +585,7 @@ def run(F, rep, tier):
             rep.violation(r5, key, "%s wraps the result of %s into a FeelNumber without a finite check: an overflowing or undefined operation yields Infinity/NaN instead of null"
                           % (key, srcs), "%s:%s" % (h["file"], h["line"]))
     rep.floor(r5, "number constructors fed by possibly non-finite primitives", nsink, 12)
+    rep.floor(r5, "predicates on a remainder", npred[0], 1)
     division_rule(F, rep, seen)
     formula_rule(F, rep)
 
@@ -782,7 +797,7 @@ def subst_self_rhs(vs, argv):
     return out
 
 
-def method_value(F, W, h, _stack=(), inline=True, returns=False):
+def method_value(F, W, h, _stack=(), inline=True, returns=False, tests=None):
     """value-set (primitive trees over self/rhs) a FeelNumber method computes, ignoring control flow.
     Calls and overloaded operators that resolve to another FeelNumber operation (`*self = *self + rhs`) are inlined.
     returns=True: instead, the list of (line, value-set) of every value the method can return - the operand of each `return` and the tail
@@ -821,6 +836,10 @@ def method_value(F, W, h, _stack=(), inline=True, returns=False):
             if cal.startswith(DEC + "dec_"):
                 w = W.sem(cal)
                 argv = [val(a) for a in e.get("args", [])]
+                if w and tests is not None:
+                    # predicate wrappers (dec_is_finite, dec_is_integer ..) answer an opaque test; the primitive they apply, and to what, is recorded here
+                    for q in w.get("prims", []):
+                        tests.append(next(iter(subst_wrapper({"result": {q}}, argv))))
                 return subst_wrapper(w, argv) if w else {("unknown", cal)}
             argv = [val(a) for a in e.get("args", [])]
             if not ("Ctor" in (e.get("dk") or "") or e.get("dk") == "SelfCtor"):
